@@ -230,18 +230,52 @@ static void invalidate_racing_reads(Model &m, int file, int var, int rank, const
         for (size_t k = 0; k < ra.elems.size() && k < ra.estate.size(); k++) if (std::binary_search(sorted.begin(), sorted.end(), ra.elems[k])) { ra.estate[k] = 2; ra.rc_any = true; }
     }
 }
+// make the index arrays match the variable's rank (programs are re-targeted to other variables while shrinking)
+static void normalise_access(const MVar &v, Access &a) {
+    size_t nd = v.dimids.size();
+    auto fix = [&](std::vector<long long> &x, long long pad) { if (x.size() != nd) x.resize(nd, pad); };
+    fix(a.start, 0); fix(a.count, 1);
+    if (!a.stride.empty()) fix(a.stride, 1);
+    if (!a.imap.empty() && a.imap.size() != nd) { a.imap.assign(nd, 1); long long m = 1; for (int d = (int)nd - 1; d >= 0; d--) { a.imap[d] = m; m *= std::max<long long>(a.count[d], 1); } }
+    for (auto &x : a.nstart) fix(x, 0);
+    for (auto &x : a.ncount) fix(x, 1);
+    if (a.ncount.size() != a.nstart.size()) a.ncount.resize(a.nstart.size(), std::vector<long long>(nd, 1));
+    if (a.form == F_VARM && a.stride.empty()) a.stride.assign(nd, 1);
+    if ((a.form == F_VARS || a.form == F_VARD) && a.stride.empty()) a.stride.assign(nd, 1);
+    if (a.form == F_VARM && a.imap.empty()) { a.imap.assign(nd, 1); long long m = 1; for (int d = (int)nd - 1; d >= 0; d--) { a.imap[d] = m; m *= std::max<long long>(a.count[d], 1); } }
+    if (a.form == F_VARM && a.flexible) {   // flexible varm: the buffer holds exactly product(count) elements, so the mapping must be a permutation
+        std::vector<long long> idx(nd); long long n = 1, span = 0; for (auto c : a.count) n *= c;
+        if (n > 0) { span = 1; for (size_t d = 0; d < nd; d++) span += (a.count[d] - 1) * a.imap[d]; if (span != n) { long long m = 1; for (int d = (int)nd - 1; d >= 0; d--) { a.imap[d] = m; m *= std::max<long long>(a.count[d], 1); } } }
+    }
+}
 static void grow_numrecs(MFile &f, int rank, long long maxrec, bool coll) {
     if (maxrec > f.numrecs) f.numrecs = maxrec;
     if (coll) return; // caller syncs
     if (maxrec > f.ranks[rank].numrecs) { f.ranks[rank].numrecs = maxrec; f.ranks[rank].numrecs_dirty = true; }
 }
 
+static bool model_step_inner(Model &m, Op &op);
 bool model_step(Model &m, Op &op) {
+    bool ok = model_step_inner(m, op);
+    op.exp_numrecs_lo.clear(); op.exp_numrecs_hi.clear();
+    if (ok && op.file >= 0 && op.file < (int)m.files.size() && op.kind != OP_CHECKPOINT && op.kind != OP_BARRIER) {
+        MFile &f = m.files[op.file];
+        if (f.open && f.unlimdim() >= 0 && !f.ranks.empty())
+            for (auto &r : f.ranks) { op.exp_numrecs_lo.push_back(r.numrecs); op.exp_numrecs_hi.push_back(r.numrecs_dirty || f.mode == FM_INDEP ? std::max(r.numrecs, f.numrecs) : r.numrecs); }
+    }
+    return ok;
+}
+static bool model_step_inner(Model &m, Op &op) {
     op.skip = false; op.exp_rc = NC_NOERR; op.rc_any = false; op.exp_rc_rank.clear(); op.note.clear();
     int opidx = m.opidx++;
     op.snap.reset(); op.msnap.reset(); op.exp_nreqs.clear(); op.exp_usage.clear();
     if (op.kind == OP_BARRIER) { m.pending_reads.clear(); return true; }
-    if (op.kind == OP_CHECKPOINT) { m.pending_reads.clear(); op.msnap = std::make_shared<Model>(m); op.msnap->pending_reads.clear(); return true; }
+    if (op.kind == OP_CHECKPOINT) {
+        m.pending_reads.clear();
+        if (op.a[0] == 1) { if (op.file < 0 || op.file >= (int)m.files.size() || !m.files[op.file].open || !m.files[op.file].in_redef) { op.skip = true; return false; } m.snap_state[op.file] = 1; op.name = m.files[op.file].path; }
+        else if (op.a[0] == 2) { if (m.snap_state[op.file] != 2) { op.skip = true; return false; } m.snap_state[op.file] = 0; }
+        op.msnap = std::make_shared<Model>(m); op.msnap->pending_reads.clear(); return true;
+    }
     if (op.file < 0 || op.file >= (int)m.files.size()) { op.skip = true; return false; }
     MFile &f = m.files[op.file];
     auto skip = [&]() { op.skip = true; return false; };
@@ -253,6 +287,7 @@ bool model_step(Model &m, Op &op) {
         n.mode = FM_DEFINE; n.fresh = true; n.ranks.assign(m.nprocs, MRank());
         auto h = op.hints.find("nc_burst_buf"); n.bb = (h != op.hints.end() && h->second == "enable");
         m.disk.erase(op.name);
+        m.absent.erase(std::remove(m.absent.begin(), m.absent.end(), op.name), m.absent.end());
         f = n; return true;
     }
     case OP_OPEN: {
@@ -268,8 +303,9 @@ bool model_step(Model &m, Op &op) {
     case OP_CLOSE: case OP_ABORT: {
         if (!f.open) return skip();
         if (any_pending(f) && op.a[0] == 0) return skip();
-        if (op.kind == OP_ABORT && (f.fresh && f.mode == FM_DEFINE)) { m.disk.erase(f.path); f = MFile(); return true; }
-        if (op.kind == OP_ABORT && f.in_redef && f.saved) { MFile s = *f.saved; s.open = false; m.disk[s.path] = s; f = MFile(); return true; }
+        if (op.kind == OP_ABORT && (f.fresh && f.mode == FM_DEFINE)) { m.disk.erase(f.path); m.absent.push_back(f.path); f = MFile(); return true; }
+        if (op.kind == OP_ABORT && f.in_redef && f.saved) { MFile s = *f.saved; s.open = false; s.ranks.clear(); m.disk[s.path] = s; f = MFile(); if (m.snap_state[op.file] == 1) { m.snap_state[op.file] = 2; op.name = s.path; } return true; }
+        m.snap_state[op.file] = 0;
         if (f.mode == FM_DEFINE) do_enddef(f);
         if (any_pending(f)) { op.exp_rc_rank.assign(m.nprocs, NC_NOERR); for (int r = 0; r < m.nprocs; r++) for (auto &q : f.ranks[r].reqs) if (q.live) op.exp_rc_rank[r] = NC_EPENDING; }
         sync_numrecs(f); mark_synced(f);
@@ -281,7 +317,7 @@ bool model_step(Model &m, Op &op) {
         f.saved = std::make_shared<MFile>(f); f.saved->saved.reset(); f.saved->mode = FM_COLL;
         f.mode = FM_DEFINE; f.in_redef = true; return true;
     }
-    case OP_ENDDEF: case OP_ENDDEF2: if (!f.open || f.mode != FM_DEFINE) return skip(); do_enddef(f); return true;
+    case OP_ENDDEF: case OP_ENDDEF2: if (!f.open || f.mode != FM_DEFINE) return skip(); do_enddef(f); m.snap_state[op.file] = 0; return true;
     case OP_BEGIN_INDEP: if (!f.open || f.mode != FM_COLL) return skip(); f.mode = FM_INDEP; return true;
     case OP_END_INDEP: if (!f.open || f.mode != FM_INDEP) return skip(); f.mode = FM_COLL; sync_numrecs(f); return true;
     case OP_SYNC: if (!f.open || f.mode == FM_DEFINE) return skip(); sync_numrecs(f); return true;
@@ -420,6 +456,7 @@ bool model_step(Model &m, Op &op) {
             Access &a = op.acc[r]; a.elems.clear(); a.exp_rc = NC_NOERR; a.rc_any = false;
             if (!a.active) continue;
             if (v.type == NC_CHAR) a.memtype = MT_TEXT; else if (a.memtype == MT_TEXT) a.memtype = native_memtype(v.type);
+            normalise_access(v, a);
             bool fatal; int rc = predict_access_rc(f, r, vi, a, is_read, is_read ? K_GET : K_PUT, op.coll, m.strict_coord, fatal);
             a.exp_rc = rc; op.exp_rc_rank[r] = rc;
             if (rc != NC_NOERR) continue;
@@ -468,6 +505,7 @@ bool model_step(Model &m, Op &op) {
             Access &a = op.acc[r]; a.elems.clear(); a.exp_rc = NC_NOERR; a.rc_any = false; a.reqslot = -1;
             if (!a.active) continue;
             if (v.type == NC_CHAR) a.memtype = MT_TEXT; else if (a.memtype == MT_TEXT) a.memtype = native_memtype(v.type);
+            normalise_access(v, a);
             bool fatal; int rc = predict_access_rc(f, r, vi, a, is_read, kind, false, m.strict_coord, fatal);
             MRank &rk = f.ranks[r];
             if (rc == NC_NOERR && kind == K_BPUT && !rk.abuf) rc = NC_ENULLABUF;
@@ -477,7 +515,8 @@ bool model_step(Model &m, Op &op) {
                 acc_elems(v, a, a.elems);
                 long long nbytes = (long long)a.elems.size() * nc_type_size(v.type);
                 if (kind == K_BPUT && rk.abuf_size - rk.abuf_used < nbytes) rc = NC_EINSUFFBUF;
-                if (rc == NC_NOERR) {
+                if (rc == NC_NOERR && a.elems.empty()) { /* a zero-length request is not queued: the id returned is NC_REQ_NULL */ }
+                else if (rc == NC_NOERR) {
                     if (!is_read) { long long mx = std::min(type_maxval(v.type), mem_maxval(a.memtype)); a.values.resize(a.elems.size()); for (size_t k = 0; k < a.elems.size(); k++) a.values[k] = value_for(opidx, r, (long long)k, mx); }
                     else { a.memtype = native_memtype(v.type); }   // values are only known at completion time: read without conversion
                     MReq q; q.live = true; q.kind = kind; q.var = vi; q.acc = a; q.opidx = opidx; q.nbytes = nbytes; q.abuf_bytes = kind == K_BPUT ? nbytes : 0;
